@@ -72,15 +72,21 @@ class Type(Scope):
     def require_inherit(self):
         return True
 
-    def get_overridden(self, field_name):
+    def get_overridden(self, field_name, visited=None):
         ret_list = []
         field_name = field_name.lower()
         for child in self.children:
             if field_name == child.name.lower():
                 ret_list.append(child)
                 break
-        if self.inherit_var is not None:
-            ret_list += self.inherit_var.get_overridden(field_name)
+        # Types that (invalidly) extend each other must not recurse forever
+        if visited is None:
+            visited = []
+        visited.append(self)
+        if self.inherit_var is not None and not any(
+            self.inherit_var is obj for obj in visited
+        ):
+            ret_list += self.inherit_var.get_overridden(field_name, visited)
         return ret_list
 
     def check_valid_parent(self):
